@@ -48,11 +48,30 @@ type ftr struct {
 	loops  []string
 	nloop  int
 	errs   []string
+	// bounds checks of []byte expressions met while translating the values of the current statement
+	pendingGuards []string
+	objs          map[string]types.Object
 }
 
 func (t *ftr) fail(n ast.Node, why string) string {
 	t.errs = append(t.errs, fmt.Sprintf("%s: %s", t.p.fset.Position(n.Pos()), why))
 	return "sorryUnsupported"
+}
+
+// noteObj refuses a `:=` that SHADOWS a variable of an enclosing scope (the translation keeps one state variable per
+// name); re-declaring a name in a sibling scope is harmless, the earlier variable can no longer be read
+func (t *ftr) noteObj(id *ast.Ident) {
+	obj := t.p.info.Defs[id]
+	if obj == nil || id.Name == "_" {
+		return
+	}
+	if t.objs == nil {
+		t.objs = map[string]types.Object{}
+	}
+	if old, ok := t.objs[id.Name]; ok && old != obj && old.Parent() != nil && old.Parent().Contains(id.Pos()) {
+		t.fail(id, "variable "+id.Name+" shadows a variable of an enclosing scope")
+	}
+	t.objs[id.Name] = obj
 }
 
 func (t *ftr) declare(name string, ty types.Type, n ast.Node) {
@@ -156,6 +175,12 @@ func (t *ftr) errExpr(e ast.Expr) string {
 		if id, ok := e.X.(*ast.Ident); ok && id.Name == "io" && e.Sel.Name == "ErrUnexpectedEOF" {
 			return "Go.Err.unexpectedEOF"
 		}
+	case *ast.UnaryExpr: // &SomeError{…}: a fresh error value of that type
+		if cl, ok := e.X.(*ast.CompositeLit); ok && e.Op == token.AND {
+			if id, ok := cl.Type.(*ast.Ident); ok {
+				return fmt.Sprintf("(Go.Err.other %q)", id.Name)
+			}
+		}
 	}
 	return t.fail(e, "unsupported error expression")
 }
@@ -235,9 +260,53 @@ func proj(i, n int) string {
 	return p
 }
 
+// bytesExpr translates a []byte-valued expression: nil, a []byte variable / receiver field, x[lo:], x[:hi], x[lo:hi].
+// The bounds checks of the slice expressions are returned as guards (Go checks against cap; the fragment semantics
+// uses len — see Model/GoSem.lean).
+func (t *ftr) bytesExpr(e ast.Expr) (term string, gs []string) {
+	if id, ok := e.(*ast.Ident); ok && id.Name == "nil" {
+		return "([] : Bytes)", nil
+	}
+	if sn := t.x.stateName(e); sn != "" && t.byName[sn].kind == "bytes" {
+		return "s." + sn, nil
+	}
+	if se, ok := e.(*ast.SliceExpr); ok && !se.Slice3 {
+		sn := t.x.stateName(se.X)
+		if sn == "" || t.byName[sn].kind != "bytes" {
+			return t.fail(e, "unsupported []byte expression"), nil
+		}
+		lo, hi := "", ""
+		if se.Low != nil {
+			gs = append(gs, t.guards(se.Low)...)
+			lo = t.x.exprAs(se.Low, ityp{64, true})
+		}
+		if se.High != nil {
+			gs = append(gs, t.guards(se.High)...)
+			hi = t.x.exprAs(se.High, ityp{64, true})
+		}
+		switch {
+		case lo != "" && hi != "":
+			gs = append(gs, fmt.Sprintf("(%s).toNat ≤ (%s).toNat", lo, hi), fmt.Sprintf("(%s).toNat ≤ s.%s.length", hi, sn))
+			return fmt.Sprintf("((s.%s.drop (%s).toNat).take ((%s).toNat - (%s).toNat))", sn, lo, hi, lo), gs
+		case lo != "":
+			gs = append(gs, fmt.Sprintf("(%s).toNat ≤ s.%s.length", lo, sn))
+			return fmt.Sprintf("(s.%s.drop (%s).toNat)", sn, lo), gs
+		case hi != "":
+			gs = append(gs, fmt.Sprintf("(%s).toNat ≤ s.%s.length", hi, sn))
+			return fmt.Sprintf("(s.%s.take (%s).toNat)", sn, hi), gs
+		}
+		return "s." + sn, nil
+	}
+	return t.fail(e, "unsupported []byte expression"), nil
+}
+
 // valueAs translates an expression to be stored in / returned as a variable of the given shape
 func (t *ftr) valueAs(e ast.Expr, v svar) string {
 	switch v.kind {
+	case "bytes":
+		term, gs := t.bytesExpr(e)
+		t.pendingGuards = append(t.pendingGuards, gs...)
+		return term
 	case "err":
 		return t.errExpr(e)
 	case "int":
@@ -334,6 +403,7 @@ func (t *ftr) assign(lhs []ast.Expr, rhs []ast.Expr, tok token.Token, n ast.Node
 					}
 					if tok == token.DEFINE {
 						if obj := t.p.info.Defs[id]; obj != nil {
+							t.noteObj(id)
 							t.declare(id.Name, obj.Type(), id)
 						}
 					}
@@ -378,6 +448,7 @@ func (t *ftr) assign(lhs []ast.Expr, rhs []ast.Expr, tok token.Token, n ast.Node
 		case *ast.Ident:
 			if tok == token.DEFINE {
 				if obj := t.p.info.Defs[l]; obj != nil {
+					t.noteObj(l)
 					t.declare(l.Name, obj.Type(), l)
 				}
 			}
@@ -391,17 +462,9 @@ func (t *ftr) assign(lhs []ast.Expr, rhs []ast.Expr, tok token.Token, n ast.Node
 			switch {
 			case tok == token.ASSIGN || tok == token.DEFINE:
 				if v.kind == "bytes" {
-					se, ok := rhs[i].(*ast.SliceExpr)
-					if !ok || se.Low != nil || se.High == nil || se.Slice3 {
-						return t.fail(rhs[i], "unsupported []byte expression")
-					}
-					id, ok := se.X.(*ast.Ident)
-					if !ok {
-						return t.fail(rhs[i], "unsupported []byte expression")
-					}
-					hi := t.x.exprAs(se.High, ityp{64, true})
-					gs = append(gs, fmt.Sprintf("(%s).toNat ≤ s.%s.length", hi, id.Name))
-					val = fmt.Sprintf("s.%s.take (%s).toNat", id.Name, hi)
+					term, bgs := t.bytesExpr(rhs[i])
+					gs = append(gs, bgs...)
+					val = term
 				} else {
 					val = t.valueAs(rhs[i], *v)
 				}
@@ -492,10 +555,15 @@ func (t *ftr) stmt(s ast.Stmt) string {
 			return t.fail(s, "bare return / wrong number of results")
 		}
 		var gs, vals []string
+		t.pendingGuards = nil
 		for i, r := range s.Results {
-			gs = append(gs, t.guards(r)...)
+			if t.res[i].kind != "bytes" {
+				gs = append(gs, t.guards(r)...)
+			}
 			vals = append(vals, t.valueAs(r, t.res[i]))
 		}
+		gs = append(gs, t.pendingGuards...)
+		t.pendingGuards = nil
 		return "(fun s => " + withGuards(gs, ".ret ("+strings.Join(vals, ", ")+") s") + ")"
 	case *ast.IfStmt:
 		init := ""
@@ -537,6 +605,47 @@ func (t *ftr) stmt(s ast.Stmt) string {
 		t.loops = append(t.loops, fmt.Sprintf("def %s.cond : %s.St → Option Bool := %s\ndef %s.body (fuel : Nat) : %s.St → Go.Out %s.St %s.R :=\n  %s\ndef %s.post : %s.St → Go.Out %s.St %s.R := %s\n",
 			ln, t.fn, cond, ln, t.fn, t.fn, t.fn, body, ln, t.fn, t.fn, t.fn, post))
 		return fmt.Sprintf("(Go.seq %s (Go.loop %s.cond (%s.body fuel) %s.post fuel))", init, ln, ln, ln)
+	case *ast.SwitchStmt:
+		if s.Init != nil {
+			return t.fail(s, "switch with init statement")
+		}
+		// cases are tried top to bottom, `default` last wherever it stands; no fallthrough
+		type arm struct{ cond, body string }
+		var arms []arm
+		def := "Go.skip"
+		var gs []string
+		for _, c := range s.Body.List {
+			cc := c.(*ast.CaseClause)
+			for _, st := range cc.Body {
+				if br, ok := st.(*ast.BranchStmt); ok && br.Tok == token.FALLTHROUGH {
+					return t.fail(st, "fallthrough")
+				}
+			}
+			body := t.block(cc.Body)
+			if cc.List == nil {
+				def = body
+				continue
+			}
+			var cs []string
+			for _, e := range cc.List {
+				gs = append(gs, t.guards(e)...)
+				if s.Tag == nil {
+					cs = append(cs, t.cond(e))
+				} else {
+					eq := &ast.BinaryExpr{X: s.Tag, Op: token.EQL, Y: e}
+					cs = append(cs, t.cond(eq))
+				}
+			}
+			arms = append(arms, arm{"(" + strings.Join(cs, " || ") + ")", body})
+		}
+		if s.Tag != nil {
+			gs = append(gs, t.guards(s.Tag)...)
+		}
+		out := def + " s"
+		for i := len(arms) - 1; i >= 0; i-- {
+			out = fmt.Sprintf("if %s then %s s else %s", arms[i].cond, arms[i].body, out)
+		}
+		return "(fun s => " + withGuards(gs, out) + ")"
 	case *ast.ExprStmt, *ast.EmptyStmt:
 		if _, ok := s.(*ast.EmptyStmt); ok {
 			return "Go.skip"
@@ -618,6 +727,8 @@ func translateFunc(p *pkgInfo, name string, b *strings.Builder) []string {
 					v.kind, v.w, v.lean = "int", it.w, fmt.Sprintf("BitVec %d", it.w)
 				} else if ty.String() == "error" {
 					v.kind, v.lean = "err", "Go.Err"
+				} else if ty.String() == "[]byte" {
+					v.kind, v.lean = "bytes", "Bytes"
 				} else {
 					t.fail(f.Type, "unsupported result type")
 				}
@@ -708,11 +819,12 @@ func translateFunc(p *pkgInfo, name string, b *strings.Builder) []string {
 func writeWireFuncs(p *pkgInfo, outPath string) {
 	var b strings.Builder
 	b.WriteString("/- REGENERATED on every run by harness/cmd/extract (wirefuncs.go): the bodies of the wire primitives of\n   /repo's encoder.go / decoder.go, translated statement by statement. Do not edit. -/\n")
-	b.WriteString("import Csproto.Model.GoSem\nset_option linter.unusedVariables false\nnamespace Csproto.Generated.WireFuncs\nopen Csproto\n\n")
+	b.WriteString("import Csproto.Model.GoSem\nimport Csproto.Generated.Facts\nset_option linter.unusedVariables false\nnamespace Csproto.Generated.WireFuncs\nopen Csproto\n\n")
 	for _, fn := range []string{"EncodeVarint", "DecodeVarint", "DecodeFixed32", "DecodeFixed64",
 		"EncodeTag", "EncodeZigZag32", "EncodeZigZag64", "DecodeZigZag32", "DecodeZigZag64",
 		"Decoder.Offset", "Decoder.Reset", "Decoder.DecodeTag", "Decoder.DecodeUInt64", "Decoder.DecodeInt64", "Decoder.DecodeUInt32",
 		"Decoder.DecodeInt32", "Decoder.DecodeSInt32", "Decoder.DecodeSInt64", "Decoder.DecodeFixed32", "Decoder.DecodeFixed64",
+		"Decoder.DecodeBytes", "Decoder.Skip",
 		"Encoder.EncodeUInt64", "Encoder.EncodeUInt32", "Encoder.EncodeInt64", "Encoder.EncodeInt32", "Encoder.EncodeSInt32", "Encoder.EncodeSInt64"} {
 		if errs := translateFunc(p, fn, &b); len(errs) > 0 {
 			fmt.Println("wire primitive", fn, "is outside the translatable fragment (Bridge/WireFuncs.lean no longer applies):")
